@@ -28,7 +28,16 @@ if not cps or not tests:
     meta["error"] = "could not parse DEMO.md"
     json.dump(meta, open(os.path.join(dst, "meta.json"), "w"), indent=1)
     sys.exit(1)
-cp_cmds = [re.sub(r"(?:\./)?MUTATION/\d+/", src + "/", c) for c in cps]
+cp_cmds = []
+for c in cps:
+    c = re.sub(r"(?:\./)?MUTATION/\d+/", src + "/", c)
+    parts = c.split()
+    # a source given relative to the mutation directory itself
+    if len(parts) == 3 and not os.path.isabs(parts[1]) and os.path.exists(os.path.join(src, parts[1])):
+        parts[1] = os.path.join(src, parts[1])
+        c = " ".join(parts)
+    if c not in cp_cmds:
+        cp_cmds.append(c)
 with_run = [t for t in tests if "-run" in t]
 test_cmd = (with_run or tests)[0].strip().rstrip("`").strip()
 if "-timeout" not in test_cmd:
